@@ -72,6 +72,19 @@ Theorem C09_sideslip_wake_differs :
 Proof. exact Tw_wake_with_sideslip. Qed.
 Print Assumptions C09_sideslip_wake_differs.
 
+(* rotating flight: the (B^2, B, B) scaling of the rigid-rotation onset velocity (wind axes) is exactly what makes it the
+   velocity field of a rigid rotation in the Prandtl-Glauert domain - rate (w_x, B w_y, B w_z) about the transformed point *)
+Theorem C09_scaled_rotational_velocity_is_a_rigid_rotation_in_the_PG_domain :
+  forall M (w r : nat -> R) d, (d < 3)%nat -> pg_rotvel M (cross w r) d = cross (pg_point M w) (pg_point M r) d.
+Proof. exact pg_rotvel_is_rigid_rotation. Qed.
+Print Assumptions C09_scaled_rotational_velocity_is_a_rigid_rotation_in_the_PG_domain.
+
+Theorem C09_uniform_scaling_of_the_rotational_velocity_refuted :
+  forall M, betaPG M <> 0 -> betaPG M <> 1 ->
+    exists (w r : nat -> R), cross w r 0%nat * betaPG M <> cross (pg_point M w) (pg_point M r) 0%nat.
+Proof. exact uniform_scaling_is_not. Qed.
+Print Assumptions C09_uniform_scaling_of_the_rotational_velocity_refuted.
+
 (* translator tie: the data-flow graph (which output feeds which input) of canonical models of the public groups, regenerated
    from the live models on every run, is the reviewed one; a changed or dropped promotion / connection breaks this obligation *)
 From Coq Require Import List String.
